@@ -400,7 +400,6 @@ class IMAPConnection:
                     await self.send_error_disconnect()
                     raise
                 else:
-                    await self.write_response(response)
                     if response.is_bad:
                         bad_commands += 1
                         if self.bad_command_limit \
@@ -409,6 +408,7 @@ class IMAPConnection:
                             response.add_untagged(ResponseBye(msg))
                     else:
                         bad_commands = 0
+                    await self.write_response(response)
                     if response.is_terminal:
                         break
                     if isinstance(cmd, StartTLSCommand) \
